@@ -13,7 +13,7 @@ import typing as ty
 VERIF = Path(__file__).resolve().parent.parent
 KNOWN_FILE = VERIF / "known_findings.json"
 EVIDENCE_DIR = VERIF / "evidence"
-OUT_DIR = VERIF / "out"
+OUT_DIR = Path(os.environ.get("PYDRA_SA_OUT") or (VERIF / "out"))
 
 
 @dataclass
